@@ -986,6 +986,93 @@ func idleDropper(w *world, seed int64) {
 	}
 }
 
+// ---------- store.WriteControlledStore: one writer or many readers per message literal ----------
+
+type wcsProbe struct{ readers, writers int32 }
+
+// probeStore is the store underneath the write-controlled one: it only watches who is inside at the same time.
+type probeStore struct {
+	probes     map[imap.InternalMessageID]*wcsProbe
+	violations int64
+}
+
+func (p *probeStore) write(id imap.InternalMessageID) {
+	x := p.probes[id]
+	if atomic.AddInt32(&x.writers, 1) != 1 || atomic.LoadInt32(&x.readers) != 0 {
+		atomic.AddInt64(&p.violations, 1)
+	}
+	runtime.Gosched()
+	if atomic.LoadInt32(&x.readers) != 0 {
+		atomic.AddInt64(&p.violations, 1)
+	}
+	atomic.AddInt32(&x.writers, -1)
+}
+func (p *probeStore) Get(id imap.InternalMessageID) ([]byte, error) {
+	x := p.probes[id]
+	atomic.AddInt32(&x.readers, 1)
+	if atomic.LoadInt32(&x.writers) != 0 {
+		atomic.AddInt64(&p.violations, 1)
+	}
+	runtime.Gosched()
+	atomic.AddInt32(&x.readers, -1)
+	return []byte("literal"), nil
+}
+func (p *probeStore) Set(id imap.InternalMessageID, r io.Reader) error {
+	if _, err := io.ReadAll(r); err != nil {
+		return err
+	}
+	p.write(id)
+	return nil
+}
+func (p *probeStore) Delete(ids ...imap.InternalMessageID) error {
+	for _, id := range ids {
+		p.write(id)
+	}
+	return nil
+}
+func (p *probeStore) Close() error                            { return nil }
+func (p *probeStore) List() ([]imap.InternalMessageID, error) { return nil, nil }
+
+// wcsStress: many goroutines Get / Set / Delete the same two literals through store.NewWriteControlledStore for the given
+// time; the store underneath reports every moment at which a writer was not alone with a literal.
+func wcsStress(ms int, seed int64) {
+	ids := []imap.InternalMessageID{imap.NewInternalMessageID(), imap.NewInternalMessageID()}
+	probe := &probeStore{probes: map[imap.InternalMessageID]*wcsProbe{}}
+	for _, id := range ids {
+		probe.probes[id] = &wcsProbe{}
+	}
+	st := store.NewWriteControlledStore(probe)
+	deadline := time.Now().Add(time.Duration(ms) * time.Millisecond)
+	var wg sync.WaitGroup
+	var ops int64
+	for w := 0; w < 24; w++ {
+		wg.Add(1)
+		go func(w int) {
+			defer wg.Done()
+			for i := 0; time.Now().Before(deadline) && atomic.LoadInt64(&probe.violations) == 0; i++ {
+				id := ids[(w+i)%len(ids)]
+				switch (w + i/3 + int(seed)) % 3 {
+				case 0:
+					_ = st.Set(id, strings.NewReader("literal"))
+				case 1:
+					_, _ = st.Get(id)
+				default:
+					_ = st.Delete(id)
+				}
+				atomic.AddInt64(&ops, 1)
+			}
+		}(w)
+	}
+	wg.Wait()
+	repMu.Lock()
+	rep.Stats["wcs-operations"] += int(atomic.LoadInt64(&ops))
+	repMu.Unlock()
+	if v := atomic.LoadInt64(&probe.violations); v > 0 {
+		fail("exclusion", "the write-controlled store let a writer share a message literal with another reader or writer",
+			fmt.Sprintf("%d overlap(s) after %d operations on 2 literals by 24 goroutines", v, atomic.LoadInt64(&ops)))
+	}
+}
+
 // ---------- parked connections: one per protocol state, left OPEN by the client until the leak check is over ----------
 
 type parked struct {
@@ -1117,7 +1204,8 @@ func main() {
 	logrus.SetLevel(logrus.ErrorLevel)
 	logrus.AddHook(logHook{})
 	nQueues := flag.Int("queues", 0, "QueuedChannel stress: number of queues to create and close (0 = skip)")
-	queuesOnly := flag.Bool("queues-only", false, "run only the QueuedChannel stress")
+	queuesOnly := flag.Bool("queues-only", false, "run only the QueuedChannel / write-controlled store stress")
+	wcsMs := flag.Int("wcs-ms", 0, "write-controlled store stress: how long (ms; 0 = skip)")
 	cancelServe := flag.Int("cancel-serve", -1, "1: cancel the Serve context before Close, 0: do not, -1: by the seed")
 	debugLog := flag.Bool("debuglog", false, "run gluon with logrus at debug level (formatted, output discarded)")
 	seed := flag.Int64("seed", 1, "seed")
@@ -1129,9 +1217,14 @@ func main() {
 		logrus.SetLevel(logrus.DebugLevel)
 	}
 	os.MkdirAll(out, 0o755)
-	if *nQueues > 0 {
+	if *nQueues > 0 || *wcsMs > 0 {
 		defer writeReport()
-		queueStress(*nQueues, *seed)
+		if *wcsMs > 0 {
+			wcsStress(*wcsMs, *seed)
+		}
+		if *nQueues > 0 {
+			queueStress(*nQueues, *seed)
+		}
 		if *queuesOnly {
 			repMu.Lock()
 			rep.Complete = true
